@@ -153,6 +153,17 @@ func retSmall(p *Small) Small { v := *p; p.a = 9; return v }
 func retBig(p *Big) Big     { v := *p; p.a = 9; return v }
 func retArr5(p *[5]int) [5]int { v := *p; p[0] = 9; return v }
 func retTwo(p *Pt) (Pt, int)   { v := *p; p.x = 9; return v, p.x }
+func boxBig(p *Big) any        { old := *p; p.a += 5; return old }
+func boxPt(p *Pt) any          { v := *p; p.x = 9; return v }
+func boxArr5(p *[5]int) any    { v := *p; p[0] = 9; return v }
+func boxSmall(p *Small) any    { v := *p; p.a = 9; return v }
+func popBox(st *[]Pt) any {
+	s := *st
+	v := s[len(s)-1]
+	s[len(s)-1] = Pt{}
+	*st = s[:len(s)-1]
+	return v
+}
 
 type Seg struct {
 	a, b Pt
@@ -703,6 +714,12 @@ class Gen:
             self.emit(ind, "sink(int(retSmall(%s).a) + int(%s.a))" % (sm, sm))
             self.emit(ind, "sink(retBig(%s).a + %s.a)" % (pb, pb))
             self.emit(ind, "sink(retArr5(%s)[0] + %s[0])" % (arr, arr))
+            # a value boxed into an interface after the original was changed is still the old value
+            self.emit(ind, "sink(boxBig(%s).(Big).a + %s.a)" % (pb, pb))
+            self.emit(ind, "sink(boxPt(%s).(Pt).x + boxArr5(%s).([5]int)[0] + int(boxSmall(%s).(Small).a))" % (pt, arr, sm))
+            stk = self.fresh("st")
+            self.emit(ind, "%s := []Pt{{%s, 1}, {2, %s}}" % (stk, a, b))
+            self.emit(ind, "sink(popBox(&%s).(Pt).y + popBox(&%s).(Pt).x + len(%s))" % (stk, stk, stk))
             r2, n2 = self.fresh("rr"), self.fresh("rn")
             self.emit(ind, "%s, %s := retTwo(&Pt{%s, 1})" % (r2, n2, b))
             self.emit(ind, "sink(%s.x + %s)" % (r2, n2))
